@@ -48,6 +48,11 @@ func (k Keeper) ExecuteVote(ctx context.Context, id uint64) error {
 	}
 	// amount of dispute fee to return to fee payers or give to reporter
 	disputeFeeMinusBurn := dispute.SlashAmount.Sub(dispute.BurnAmount)
+	// every further round adds its whole fee to the burn amount, after enough rounds it exceeds the slash amount:
+	// nothing of the first round's fee is left to hand out then (a negative amount made BeginBlock panic)
+	if disputeFeeMinusBurn.IsNegative() {
+		disputeFeeMinusBurn = math.ZeroInt()
+	}
 	// the burnAmount starts at %5 of disputeFee, half of which is burned and the other half is distributed to the voters
 	disputeBurnAmountDec := math.LegacyNewDecFromInt(dispute.BurnAmount)
 	halfBurnAmountDec := disputeBurnAmountDec.Quo(math.LegacyNewDec(2))
